@@ -62,6 +62,11 @@ pub fn generate(rng: &mut Rng) -> NetScenario {
             let body = cookie_json(wall.base_s - rng.below(600), &effective, &cookie_identity(i), Some("earlier-target"));
             spec.auth_cookie = Some(signed_cookie(sec, &body));
         }
+        // no secret configured: a cookie "signed" with the empty key (or any key) means nothing
+        if intent == 3 && secret.is_none() && rng.chance(1, 2) {
+            let body = cookie_json(wall.base_s - rng.below(600), &effective, &cookie_identity(i), Some("earlier-target"));
+            spec.auth_cookie = Some(signed_cookie(if rng.chance(2, 3) { b"" } else { b"swarm-secret" }, &body));
+        }
         if proxy.is_some() {
             let src: SocketAddr = effective.parse().unwrap();
             let dst: SocketAddr = "192.0.2.200:25565".parse().unwrap();
